@@ -41,12 +41,17 @@ def oracle(prim, a, b):
         return None, a * b, 768
     if prim == "bi_sqr":
         return None, a * a, 768
+    # modular add / subtract / double: one conditional correction, as every back end does it; for canonical operands this is the
+    # residue, for the other 384-bit operands (the property quantifies over all of them) it is what the back ends must agree on
     if prim == "fp_add":
-        return None, (a + b) % Q, 384
+        t = a + b
+        return None, ((t - Q) if (t & M384) >= Q or t >> 384 else t) & M384, 384
     if prim == "fp_sub":
-        return None, (a - b) % Q, 384
+        d = a - b
+        return None, ((d + Q) if d < 0 else d) & M384, 384
     if prim == "fp_dbl":
-        return None, (2 * a) % Q, 384
+        t = 2 * a
+        return None, ((t - Q) if (t & M384) >= Q or t >> 384 else t) & M384, 384
     if prim == "fp_mred":
         return None, a * F.FQ_RINV % Q, 384
     if prim == "fp_mul":
@@ -224,6 +229,13 @@ def prim_cases(draw):
         return {"prim": prim, "a": c["A"], "b": 0, "alias": False, "ta": c["tU"], "tb": ""}
     op = {"fp_add": "add", "fp_sub": "sub", "fp_dbl": "dbl", "fp_mul": "mul", "fp_sqr": "sqr"}[prim]
     c = draw(c02.binop_cases("fq", op))
+    if prim in ("fp_add", "fp_sub", "fp_dbl") and draw(st.integers(0, 3)) == 0:
+        # any 384-bit operands, not only canonical ones
+        ta, a = draw(gens.ints(384, Q))
+        tb, b = draw(gens.ints(384, Q))
+        if draw(st.booleans()):
+            b, tb = a, "same-value"
+        return {"prim": prim, "a": a, "b": b, "alias": alias, "ta": "raw-" + ta, "tb": "raw-" + tb}
     return {"prim": prim, "a": c["a"], "b": c["b"], "alias": alias, "ta": c["ta"], "tb": c["tb"]}
 
 
@@ -447,6 +459,38 @@ def check_generic(ctx, lib, c):
         return
 
 
+# ---- modular add / subtract / double through the C++ members, any 384-bit operands, operands possibly one object ------------
+@st.composite
+def member_cases(draw):
+    op = draw(st.sampled_from(("add", "sub", "dbl")))
+    ta, a = draw(gens.ints(384, Q))
+    tb, b = draw(gens.ints(384, Q))
+    how = draw(st.sampled_from(("pair", "pair", "same-value", "same-object", "same-object")))
+    if how != "pair":
+        b, tb = a, ta
+    if draw(st.integers(0, 2)) == 0:
+        a, b = gens.below(a, Q), gens.below(b, Q)
+        ta = "canon-" + ta
+    alias = draw(st.sampled_from((None, None, "a"))) if how != "same-object" else "b=a"
+    return {"op": op, "a": a, "b": b, "how": how, "alias": alias, "ta": ta, "tb": tb}
+
+
+def check_member(ctx, lib, c):
+    op, a, b, alias = c["op"], c["a"], c["b"], c["alias"]
+    prim = {"add": "fp_add", "sub": "fp_sub", "dbl": "fp_dbl"}[op]
+    _, exp, _ = oracle(prim, a, b)
+    A, B = conv.bi(a, 384), conv.bi(b, 384)
+    if op == "dbl":
+        rv, out = lib.op("fq_dbl", A, alias="a" if alias == "a" else None)
+    else:
+        rv, out = lib.op("fq_" + op, A, B, alias=alias)
+    raw = a >= Q or b >= Q
+    ctx.count(c, raw or c["how"] != "pair" or alias is not None, "member-%s:%s%s%s" % (op, c["how"], ":raw" if raw else "", ":out=a" if alias == "a" else ""))
+    got = conv.ib(out)
+    expect(got == exp, "Fq::%s/%s" % ({"add": "add", "sub": "subtract", "dbl": "multiply2"}[op], "same-object" if alias == "b=a" else "value"),
+           lambda: "a=%x b=%x (%s, out %s): got %x expected %x" % (a, b, c["how"], "= a" if alias == "a" else "separate", got, exp))
+
+
 def setup_backends(cfg):
     return backends("x")
 
@@ -460,6 +504,7 @@ def prebuild(tier):
 
 SUBCHECKS = [
     Sub("primitives", prim_cases(), check_prim, 30000, 700000, ("all",), ("all",), setup=setup_backends),
+    Sub("members", member_cases(), check_member, 12000, 200000, ("asm", "asm:base", "p64", "p32", "glue-a64", "glue-v6m"), ("asm", "asm:base", "asm:bmi2", "p64", "p32", "glue-a64", "glue-v6m", "p64-O0")),
     Sub("generic", generic_cases(), check_generic, 40000, 300000, ("p64", "p32", "asm", "glue-a64", "glue-v6m"), ("p64", "p32", "asm", "glue-a64", "glue-v6m")),
 ]
 
